@@ -366,6 +366,30 @@ def check_case(case, ctx):
             ctx.violation("dict.model", f"kwargs-built profile: dictionary {d}", case)
             return
         ctx.ok(fp=("kwargs", tuple(v)), case=case, classes=("builder:kwargs",))
+    elif op == "builder_bytes":
+        # byte-string arguments handed to the builder must come back as the same bytes in the dictionary view,
+        # for the built profile and for its text parsed again (literal spelling is the builder's choice)
+        ctx.mon("builder.equal")
+        b1, b2, b3, b4 = case["vals"]
+        try:
+            built = c2p.C2Profile()
+            gb = c2p.HttpGetBlock()
+            gb.set_config_block("client", c2p.HttpOptionsBlock(metadata=c2p.DataTransformBlock(steps=["mask", ("prepend", b1), ("append", b2), ("header", b3)])))
+            built.set_config_block("http_get", gb)
+            pi = c2p.ProcessInjectBlock()
+            pi.set_config_block("execute", c2p.ExecuteOptionsBlock.from_execute_list([("CreateThread", b4), "SetThreadContext"]))
+            built.set_config_block("process_inject", pi)
+            d1 = built.as_dict()
+            d2 = c2p.C2Profile.from_text(built.as_text()).as_dict()
+        except Exception as e:  # noqa: BLE001
+            ctx.violation("builder.equal", f"byte arguments {case['vals']!r}: {type(e).__name__}: {str(e)[:200]}", case)
+            return
+        want = {"http-get.client.metadata": ["mask", ("prepend", b1), ("append", b2), ("header", b3)], "process-inject.execute": [("CreateThread", b4), "SetThreadContext"]}
+        for name, d in (("built", d1), ("built, printed and parsed again", d2)):
+            if d != want:
+                ctx.violation("builder.equal", f"{name} profile reports {d!r} for builder arguments {want!r}", case)
+                return
+        ctx.ok(fp=("bb", b1, b2, b3, b4), case=case, classes=("builder:bytes",))
     elif op == "gate":
         ctx.mon("builder.equal")
         names = case["names"]
@@ -441,6 +465,12 @@ def run_shard(shard, ctx):
                 break
             check_case({"op": "builder", "program": gen_program(rng)}, ctx)
     elif kind == "gate":
+        alpha = [b"\\", b"'", b'"', b"a", b"\n", b";", b"\xff", b"\x00", b"x", b"{"]
+        for i in range(60):
+            vals = [b"".join(rng.choice(alpha) for _ in range(rng.randrange(0, 6))) if rng.random() < 0.7 else rng.randbytes(rng.randrange(0, 12)) for _ in range(4)]
+            if i < 4:
+                vals[i] = [b"\\'", b"'\\", b"\\\"", b"\\'\\'"][i]
+            check_case({"op": "builder_bytes", "vals": vals}, ctx)
         for _ in range(12):
             check_case({"op": "kwargs", "vals": [_val(rng) or "x" for _ in range(13)]}, ctx)
         names = [_kws(a)[0] for a in LANG["beacon_gate_options"]]
